@@ -463,16 +463,15 @@ theorem lvGe_of_forall {m : Nat} {l : Sheet} (h : ∀ x ∈ l, ∀ n, lv x = som
 theorem mem_kinds_ne {x : Rule} {ks : List Kind} (h : x.kind ∉ ks) (k : Kind) (hk : k ∈ ks) : x.kind ≠ k :=
   fun he => h (he ▸ hk)
 
-/-- the operations are used as the API offers them: `add()` (in-order) takes no index -/
+/-- `add()` (in-order) takes no index.  The validity proof needed this hypothesis for the code before repair df1e9ff
+(`insertRule(rule, index, inOrder=True)` used the given index when no later rule was found); it is no longer used -/
 def OpWF : Op → Prop
   | .insert _ idx o => o = true → idx = none
   | _ => True
 
 theorem insertRule_valid (s : Sheet) (hv : Valid s) (r : Rule) (index : Option Nat) (inOrder : Bool)
-    (clean : Bool) (hwf : inOrder = true → index = none) :
+    (clean : Bool) :
     Valid (insertRule true s r index inOrder clean).1 := by
-  have hidx : inOrder = true → index.getD s.length = s.length := by
-    intro h; rw [hwf h]; rfl
   unfold insertRule
   simp only
   split
@@ -561,12 +560,12 @@ theorem insertRule_valid (s : Sheet) (hv : Valid s) (r : Rule) (index : Option N
             rw [hlv] at hm; cases hm
             exact ⟨fun y hy n hn => lv_le_one_of y (any_kindIn_false h2' y hy) n hn, lvGe_one _⟩
     | «namespace» =>
-      simp only
+      simp only [if_true]
       have hnc : r.kind ≠ .charset := by rw [hk]; decide
       have hlv : lv r = some 2 := by simp [lv, hk, lvl]
       -- first: wherever it is placed, the sheet with the rule inserted is valid
       have key : ∀ idx, (if inOrder = true then
-            some (inOrderPlace true s .namespace [.charset, .import] (bodyKinds ++ [.unknown, .comment]) (index.getD s.length))
+            some (inOrderPlace true s .namespace [.charset, .import] (bodyKinds ++ [.unknown, .comment]) s.length)
           else if (s.drop (index.getD s.length)).any (kindIn [.charset, .import]) = true then none
           else if (s.take (index.getD s.length)).any (kindIn bodyKinds) = true then none
           else some (index.getD s.length)) = some idx → Valid (insertAt s idx r) := by
@@ -574,7 +573,6 @@ theorem insertRule_valid (s : Sheet) (hv : Valid s) (r : Rule) (index : Option N
         split at hplace
         · rename_i ho
           cases hplace
-          rw [hidx ho]
           apply valid_inOrder s hv r .namespace _ _ hk (by decide) (by simp)
             (by
               intro x hx hxc
@@ -618,7 +616,7 @@ theorem insertRule_valid (s : Sheet) (hv : Valid s) (r : Rule) (index : Option N
                 intro y hy n hn
                 exact lv_ge_two_of y (mem_kinds_ne (any_kindIn_false h1' y hy) _ (by simp)) n hn
       generalize hplace : (if inOrder = true then
-            some (inOrderPlace true s .namespace [.charset, .import] (bodyKinds ++ [.unknown, .comment]) (index.getD s.length))
+            some (inOrderPlace true s .namespace [.charset, .import] (bodyKinds ++ [.unknown, .comment]) s.length)
           else if (s.drop (index.getD s.length)).any (kindIn [.charset, .import]) = true then none
           else if (s.take (index.getD s.length)).any (kindIn bodyKinds) = true then none
           else some (index.getD s.length)) = place at key
@@ -637,12 +635,12 @@ theorem insertRule_valid (s : Sheet) (hv : Valid s) (r : Rule) (index : Option N
             | none => exact valid_of_sublist hsub (key idx rfl)
           · exact key idx rfl
     | variables =>
-      simp only
+      simp only [if_true]
       have hnc : r.kind ≠ .charset := by rw [hk]; decide
       have hlv : lv r = none := by simp [lv, hk, lvl]
       generalize hplace : (if inOrder = true then
             some (inOrderPlace true s .variables [.charset, .import, .namespace]
-              [.media, .page, .style, .fontface, .unknown, .comment] (index.getD s.length))
+              [.media, .page, .style, .fontface, .unknown, .comment] s.length)
           else if (s.drop (index.getD s.length)).any (kindIn [.charset, .import, .namespace]) = true then none
           else if (s.take (index.getD s.length)).any (kindIn [.media, .page, .style, .fontface]) = true then none
           else some (index.getD s.length)) = place
@@ -653,7 +651,6 @@ theorem insertRule_valid (s : Sheet) (hv : Valid s) (r : Rule) (index : Option N
         split at hplace
         · rename_i ho
           cases hplace
-          rw [hidx ho]
           apply valid_inOrder s hv r .variables _ _ hk (by decide) (by simp)
             (by
               intro x hx hxc
@@ -761,7 +758,7 @@ theorem setEncoding_valid (s : Sheet) (hv : Valid s) (e : Option Nat) : Valid (s
     · exact hv
   · split
     · rename_i enc
-      have := insertRule_valid s hv { kind := .charset, p := enc } (some 0) false true (by intro h; cases h)
+      have := insertRule_valid s hv { kind := .charset, p := enc } (some 0) false true
       generalize insertRule true s { kind := .charset, p := enc } (some 0) false = x at this ⊢
       obtain ⟨s', r'⟩ := x
       cases r' <;> exact this
@@ -792,7 +789,7 @@ theorem setEncoding_cases (fx : Bool) (s : Sheet) (e : Option Nat) :
 theorem nsSet_valid (s : Sheet) (hv : Valid s) (p u : Nat) : Valid (nsSet true s p u).1 := by
   unfold nsSet
   split
-  · have := insertRule_valid s hv { kind := .namespace, p := p, u := u } none true true (fun _ => rfl)
+  · have := insertRule_valid s hv { kind := .namespace, p := p, u := u } none true true
     generalize insertRule true s { kind := .namespace, p := p, u := u } none true = x at this ⊢
     obtain ⟨s', r'⟩ := x
     cases r' <;> exact this
@@ -832,7 +829,7 @@ theorem nsDel_cases (s : Sheet) (p : Nat) : (nsDel s p).1 = s ∨ (nsDel s p).2 
 
 theorem parseInsert_valid (acc : Sheet) (hv : Valid acc) (r : Rule) : Valid (parseInsert true acc r).1 := by
   unfold parseInsert
-  have := insertRule_valid acc hv r none false false (by intro h; cases h)
+  have := insertRule_valid acc hv r none false false
   generalize insertRule true acc r none false false = x at this ⊢
   obtain ⟨s', r'⟩ := x
   cases r' <;> exact this
@@ -884,9 +881,9 @@ theorem parseSheet_valid (rs : List Rule) : Valid (parseSheet true rs) :=
 
 /-! ### the two C07 theorems for one step, and for every history -/
 
-theorem step_valid (s : Sheet) (hv : Valid s) (op : Op) (hwf : OpWF op) : Valid (step true s op).1 := by
+theorem step_valid (s : Sheet) (hv : Valid s) (op : Op) : Valid (step true s op).1 := by
   cases op with
-  | insert r i o => exact insertRule_valid s hv r i o true hwf
+  | insert r i o => exact insertRule_valid s hv r i o true
   | delete i => exact valid_of_sublist (deleteRule_sublist _ _) hv
   | encoding e => exact setEncoding_valid s hv e
   | nsSet p u => exact nsSet_valid s hv p u
@@ -916,7 +913,7 @@ theorem step_reject (fx : Bool) (s : Sheet) (op : Op) (e : Err) (h : (step fx s 
     · rename_i hok; simp [hok] at h
     · rfl
 
-theorem reachable_valid (ops : List Op) (hwf : ∀ op ∈ ops, OpWF op) :
+theorem reachable_valid (ops : List Op) :
     Valid (ops.foldl (fun s op => (step true s op).1) []) := by
   suffices h : ∀ (s : Sheet), Valid s → Valid (ops.foldl (fun s op => (step true s op).1) s) from h [] valid_nil
   induction ops with
@@ -924,7 +921,7 @@ theorem reachable_valid (ops : List Op) (hwf : ∀ op ∈ ops, OpWF op) :
   | cons op ops ih =>
     intro s hv
     simp only [List.foldl_cons]
-    exact ih (fun o ho => hwf o (List.mem_cons_of_mem _ ho)) _ (step_valid s hv op (hwf op List.mem_cons_self))
+    exact ih _ (step_valid s hv op)
 
 
 /-! ### a valid rule list re-parses to itself (sheets without @namespace / @variables rules) -/
